@@ -18,6 +18,9 @@ Seven kinds of cases (`op`; the last three were added in round 3):
   pipeline   the three library calls chained on the library's own intermediate results
                                                                       vs  the term of `pipeline_per_center`
   (boundary volumes and alternate input forms are `volume` / `rdms` cases)
+  round 6: eval / pipeline cases also run REAL evaluations (`ev`: models, theta, method, evaluation function)
+           through `evaluate_models_searchlight`  vs  the direct per-centre call, across n_jobs, and — by a spy
+           evaluation function — vs `callEval` at the regenerated call sites (`c19.evalkw`)
 Numbers: radii are stored as the exact rational value of the float handed to the library,
 thresholds as small fractions p/q (the library gets float(p/q)); data are small integers.
 """
@@ -56,7 +59,10 @@ THEOREMS = [P + n for n in (
     'pipeline_per_center', 'chunks_cover_any_points', 'table_rows_any_points',
     'rdm_corr_of_searchlight', 'rdm_poisson_of_searchlight',
     # round 4
-    'buffer_dtype_leaf', 'table_rows_stored_unchanged')]
+    'buffer_dtype_leaf', 'table_rows_stored_unchanged',
+    # round 6
+    'eval_forwarding_leaf', 'call_site_forwards_all', 'eval_per_center_kw',
+    'eval_per_center_kw_any_schedule', 'eval_njobs_agree', 'pipeline_per_center_kw')]
 RULE = ('one PRNG; ops: neighbors (shape 1..5 per axis, centre inside or up to 2 outside, radius from '
         '{-1,0,.5,1,1.41,1.42,1.5,1.7,1.73,2,2.24,2.3,2.5,3}), volume (shape <= 4x4x3 quick / 5x5x4 '
         'thorough, random mask contents as bool/int/float/non-binary values, thresholds '
@@ -74,6 +80,14 @@ RULE = ('one PRNG; ops: neighbors (shape 1..5 per axis, centre inside or up to 2
         'methods thorough), searchlights of 7 or 19 voxels, some condition with 2-3 observations (non-integral means); '
         'every chunked result is also compared bit for bit with the library\'s own unchunked result on the first / last '
         '300 centres; pipelines with integer / Fortran data incl. one with > 1000 centres; '
+        'round 6: every eval / pipeline case also runs REAL evaluations through evaluate_models_searchlight: '
+        'eval_fixed (75 %) or a flexible evaluation that fits unspecified parameters (25 %), models drawn from '
+        'ModelFixed / ModelWeighted / ModelSelect (1-3 models, >= 3 conditions), theta None or given per model list '
+        '(non-default weights / selections; counted only when it changes some centre\'s value), method corr / cosine, '
+        'the case\'s own n_jobs in {1, 2, 3, 4, 8, -1} and backend plus a sweep over n_jobs 1 / 2 / 3 / -1: every '
+        'centre\'s result must equal the direct call eval_function(models, sl_RDM[i], method=method, theta=theta) '
+        'bit for bit (and a plain-loop corr / cosine for eval_fixed), all n_jobs must agree bit for bit, and a spy '
+        'evaluation function reports the keywords it really received per centre (vs the model\'s call sites); '
         'points (for EVERY n in 1001..20000 plus a few up to 10^6 the split points the code under check hands to '
         'np.split, read off by stopping the call there: admissible, equal to the model\'s IEEE linspace, chunks '
         'partition 0..n-1; chunk lengths for every 25th n quick / all thorough), pipeline (mask -> library centres '
@@ -101,7 +115,12 @@ BRANCHES = ['nb:clipped', 'nb:interior', 'nb:outside_center', 'nb:r_le_0', 'nb:b
             'chunked:float32_euclidean', 'chunked:float32_correlation',
             'rdms:n1000_int', 'rdms:n1001_int', 'rdms:n1000_float32', 'rdms:n1001_float32',
             'chunked:same_as_plain', 'chunked:same_as_plain_form', 'rdms:form_anyint',
-            'pipe:int', 'pipe:chunked_int']
+            'pipe:int', 'pipe:chunked_int',
+            # round 6: real evaluations, theta / method really forwarded, identical across n_jobs
+            'eval:theta-given:n_jobs1', 'eval:theta-given:n_jobsN', 'eval:njobs-agree',
+            'eval:theta-none', 'eval:weighted', 'eval:select', 'eval:fixed_models', 'eval:corr', 'eval:cosine',
+            'eval:flex', 'eval:n_jobs_minus1', 'eval:theta_tuple', 'eval:kw_received', 'eval:theta-given:processes',
+            'pipe:theta-given:n_jobs1', 'pipe:theta-given:n_jobsN']
 ASSUMPTIONS = [
     'float64 `sqrt(k) < r` agrees with the exact test `0 < r and k < r^2` for the generated radii '
     '(never within 1e-3 of an irrational sqrt(k); integer radii hit perfect squares exactly)',
@@ -115,7 +134,9 @@ TRUSTED_EXTRA = [
     'n in 1001..20000 each run; admissibility `ptsOkB` checked on all of them; `table_rows_any_points` needs '
     'no assumption on the points at all)',
     'joblib.Parallel returns results in task order for every backend and n_jobs (contract '
-    '`parallel_full`; observed for n_jobs 1-4, threading and loky)',
+    '`parallel_full`; observed for n_jobs 1-4, 8, -1, None, threading and loky)',
+    'the call sites of eval_function found in the source text (leaf kind `fwd`) are the calls that run '
+    '(observed by a spy evaluation function that reports the keywords it received, every eval / pipeline case)',
 ]
 
 RADII = [F(-1), F(0), F(1, 2), F(1), F(1.41), F(1.42), F(3, 2), F(1.7), F(1.73), F(2), F(2.24), F(2.3),
@@ -499,19 +520,81 @@ def _gen_chunked_forms(rng, tier):
                 yield _gen_big(rng, rng.choice([None, 1001, 1002, 1100]), m, form={'data': dk})
 
 
-def _gen_eval(rng, n_jobs, backend):
-    base = _gen_rdms(rng, 'euclidean')
-    while len(_expand_rdms(base)[1]) < 4:
+EV_NJOBS_SWEEP = [1, 2, 3, -1, None]      # None = joblib's default (one job)
+
+
+def _theta_arg(ev):
+    """theta as handed to the library: list / tuple / numpy array"""
+    th = ev['theta']
+    if th is None:
+        return None
+    form = ev.get('theta_form', 'list')
+    if form == 'tuple':
+        return tuple(tuple(t) if isinstance(t, list) else t for t in th)
+    if form == 'array':
+        return np.array(th, dtype=float)
+    return [list(t) if isinstance(t, list) else t for t in th]
+
+
+def _gen_ev(rng, want_theta=None, fn=None, kinds=None):
+    """round 6: the real evaluation of an eval / pipeline case: which models (1-3 of ModelFixed /
+    ModelWeighted / ModelSelect), theta (None, or per model: None for a fixed model, non-default
+    weights for a weighted one, a non-default selection for a select model), method, evaluation function"""
+    if kinds is None:
+        kinds = [rng.choice(['fixed', 'weighted', 'select', 'weighted']) for _ in range(rng.randint(1, 3))]
+        if all(k == 'fixed' for k in kinds) and rng.random() < 0.7:
+            kinds[rng.randrange(len(kinds))] = rng.choice(['weighted', 'select'])
+    given = (rng.random() < 0.7) if want_theta is None else want_theta
+    if want_theta and all(k == 'fixed' for k in kinds):
+        kinds[0] = 'weighted'      # a requested theta must be able to matter
+    if not given:
+        kinds = [k if k != 'select' else 'weighted' for k in kinds]   # ModelSelect has no usable default here
+        theta = None
+    else:
+        theta = []
+        for k in kinds:
+            if k == 'fixed':
+                theta.append(None)
+            elif k == 'weighted':
+                w = [rng.choice([-1.5, -0.5, 0.0, 0.25, 0.5, 2.0, 3.0]) for _ in range(3)]
+                if len(set(w)) == 1:
+                    w[0] = w[0] + 1.0           # not proportional to the default (1, 1, 1)
+                theta.append(w)
+            else:
+                theta.append(rng.choice([1, 2]))  # default selection is 0
+    # the container handed over: list (documented), tuple, or a 2-D numpy array (all models weighted)
+    form = 'list'
+    if theta is not None:
+        form = rng.choice(['list', 'list', 'tuple', 'array' if all(k == 'weighted' for k in kinds) else 'tuple'])
+    return {'kinds': kinds, 'theta': theta, 'theta_form': form, 'method': rng.choice(['corr', 'cosine']),
+            'fn': fn or ('flex' if rng.random() < 0.25 else 'fixed'), 'seed': rng.randint(0, 10 ** 6)}
+
+
+def _events3(rng):
+    """>= 3 conditions: >= 3 dissimilarities per RDM, so that corr / cosine depend on the prediction"""
+    while True:
+        ev = _gen_events(rng, 'euclidean')
+        if len(set(ev)) >= 3:
+            return ev
+
+
+def _gen_eval(rng, n_jobs, backend, want_theta=None, fn=None, max_centers=None):
+    while True:
         base = _gen_rdms(rng, 'euclidean')
+        base['events'] = _events3(rng)
+        nc0 = len(_expand_rdms(base)[1])
+        if nc0 >= 4 and (max_centers is None or nc0 <= max_centers):
+            break
+    base.pop('form', None)
     ncent = len(_expand_rdms(base)[1])
     sched = list(range(ncent))
     rng.shuffle(sched)
     delays = [rng.choice([0, 0, 1, 2, 3]) for _ in range(ncent)]
-    if n_jobs > 1:
+    if n_jobs != 1:
         delays[0] = 25      # the first task certainly finishes after the second: out of order
     return dict(base, op='eval', n_jobs=n_jobs, backend=backend,
                 delays=delays, sched=sched,
-                model_seed=rng.randint(0, 10 ** 6))
+                model_seed=rng.randint(0, 10 ** 6), ev=_gen_ev(rng, want_theta, fn))
 
 
 def _gen_points(tier):
@@ -553,6 +636,15 @@ def _gen_pipeline(rng, big=False, kind=None):
         if kind:
             case['data_kind'] = kind
             case['events'] = _events_nonintegral(rng, 'euclidean')
+        if big or rng.random() < 0.6:
+            # round 6: a real evaluation at the end of the pipeline (needs >= 3 conditions to mean anything)
+            if len(set(case['events'])) < 3:
+                while True:
+                    ev = _events_nonintegral(rng, 'euclidean') if kind else _gen_events(rng, 'euclidean')
+                    if len(set(ev)) >= 3:
+                        case['events'] = ev
+                        break
+            case['ev'] = _gen_ev(rng, want_theta=True if big else None, fn='fixed')
         nc = len(_expand_rdms(case)[1])
         if (nc > 1000) if big else (nc >= 1):
             return case
@@ -650,9 +742,15 @@ def generate(rng, tier):
     yield _gen_eval(rng, 1, 'threading')
     for nj in ((2, 3, 4, 2, 4) if quick else (2, 3, 4, 2, 3, 4, 8, 2, 3, 4)):
         yield _gen_eval(rng, nj, 'threading')
-    yield _gen_eval(rng, 2, 'loky')
+    yield _gen_eval(rng, 2, 'loky', want_theta=True, max_centers=16)
     if not quick:
         yield _gen_eval(rng, 4, 'loky')
+    # round 6: theta None / given x eval_fixed / flexible x n_jobs 1 (the default) / 2 / 3 / -1
+    for nj, th, fn in [(1, True, 'fixed'), (1, True, 'flex'), (1, False, 'fixed'), (1, True, None),
+                       (2, True, 'fixed'), (3, True, None), (-1, True, 'fixed'), (-1, False, None),
+                       (2, False, 'flex'), (1, True, None), (3, True, 'flex'), (1, None, None)] \
+            * (1 if quick else 12):
+        yield _gen_eval(rng, nj, 'threading', want_theta=th, fn=fn, max_centers=20)
     # keep a small case last (evidence samples show the last case)
     yield _gen_neighbors(rng)
 
@@ -673,8 +771,9 @@ def search(rng, tier):
         if rng.random() < 0.08:
             yield _gen_big(rng, rng.choice([None, 1001, 1000]), rng.choice(['euclidean', 'correlation']),
                            form={'data': rng.choice(DATA_FORMS)})
-        if rng.random() < 0.1:
-            yield _gen_eval(rng, rng.choice([1, 2, 3]), 'threading')
+        if rng.random() < 0.25:
+            yield _gen_eval(rng, rng.choice([1, 1, 2, 3, -1]), 'threading', want_theta=rng.random() < 0.8,
+                            max_centers=12)
 
 
 # ------------------------------------------------------------------ real code
@@ -683,6 +782,145 @@ def _exc(exc):
     name = type(exc).__name__
     return {'exc': name if name in ('ValueError', 'TypeError', 'AssertionError', 'IndexError',
                                     'NotImplementedError') else 'other'}
+
+
+def _ev_models(ev, npair):
+    """the models of a real evaluation, deterministic in ev['seed']: (model objects, their RDM vectors)"""
+    from rsatoolbox.model import ModelFixed, ModelWeighted, ModelSelect
+    mrng = np.random.default_rng(ev['seed'])
+    models, vecs = [], []
+    for k, kind in enumerate(ev['kinds']):
+        if kind == 'fixed':
+            v = np.round(mrng.random(npair), 3)
+            models.append(ModelFixed(f'f{k}', v))
+        else:
+            v = np.round(mrng.random((3, npair)), 3)
+            models.append((ModelWeighted if kind == 'weighted' else ModelSelect)(f'{kind[0]}{k}', v))
+        vecs.append(v.tolist())
+    return models, vecs
+
+
+def _ev_fn(ev):
+    from rsatoolbox.inference import eval_fixed
+    from engines.C19_tasks import flex_eval
+    return eval_fixed if ev['fn'] == 'fixed' else flex_eval
+
+
+def _evals(res):
+    """evaluations of a rsatoolbox Result as a flat list (NaN -> None)"""
+    return [None if math.isnan(v) else float(v) for v in np.asarray(res.evaluations, dtype=float).ravel()]
+
+
+def _plain_eval(ev, vecs, vec, theta_k_list):
+    """plain-loop corr / cosine between each model's prediction and the data vector (eval_fixed only)"""
+    out = []
+    for kind, mv, th in zip(ev['kinds'], vecs, theta_k_list):
+        if kind == 'fixed':
+            pred = list(mv)
+        elif kind == 'weighted':
+            w = [1.0, 1.0, 1.0] if th is None else th
+            pred = [sum(w[r] * mv[r][j] for r in range(3)) for j in range(len(vec))]
+        else:
+            pred = list(mv[0 if th is None else th])
+        a, b = list(pred), list(vec)
+        if ev['method'] == 'corr':
+            ma, mb = sum(a) / len(a), sum(b) / len(b)
+            a, b = [x - ma for x in a], [y - mb for y in b]
+        na, nb = math.sqrt(sum(x * x for x in a)), math.sqrt(sum(y * y for y in b))
+        out.append(None if na == 0 or nb == 0 else sum(x * y for x, y in zip(a, b)) / (na * nb))
+    return out
+
+
+def _run_real_eval(sl, ev, nj, backend, sweep, idx=None):
+    """round 6.  `evaluate_models_searchlight(sl, models, eval_function, method, theta, n_jobs)` with real
+    models, against the direct per-centre call made here, outside the library's loop; the same call for every
+    n_jobs of the sweep (threads); and a spy evaluation function that reports the keywords it received"""
+    import joblib
+    import json
+    from engines.C19_tasks import spy_eval
+    npair = sl.dissimilarities.shape[1]
+    models, vecs = _ev_models(ev, npair)
+    fn, method, theta = _ev_fn(ev), ev['method'], _theta_arg(ev)
+    idx = list(range(sl.n_rdm)) if idx is None else idx
+    out = {'n_centers': int(sl.n_rdm), 'checked': len(idx)}
+
+    def lib(n_jobs, be):
+        try:
+            with joblib.parallel_backend(be):
+                r = SL.evaluate_models_searchlight(sl, models, fn, method=method, theta=theta, n_jobs=n_jobs)
+            return [_evals(x) for x in r]
+        except Exception as exc:  # noqa: BLE001
+            return _exc(exc)
+
+    def direct(i, th):
+        try:
+            return _evals(fn(models, sl[i], method=method, theta=th))
+        except Exception as exc:  # noqa: BLE001
+            return _exc(exc)
+
+    own = lib(nj, backend)
+    want = {i: direct(i, theta) for i in idx}
+    out['own_exc'] = own.get('exc') if isinstance(own, dict) else None
+    bad = []
+    if isinstance(own, dict):
+        ok_exc = all(isinstance(w, dict) and w.get('exc') == own.get('exc') for w in want.values())
+        if not ok_exc:
+            bad = [[-1, own, _nonan(want[idx[0]])]]
+    else:
+        if len(own) != sl.n_rdm:
+            bad.append([-1, f'{len(own)} results', f'{sl.n_rdm} centres'])
+        for i in idx:
+            if i >= len(own) or own[i] != want[i]:
+                bad.append([i, own[i] if i < len(own) else None, want[i]])
+    out['mismatch'] = len(bad)
+    out['first'] = bad[0] if bad else None
+    # does the given theta matter (some centre's value differs from the value with default parameters)?
+    matters = False
+    if theta is not None:
+        dflt = [None if k != 'select' else 0 for k in ev['kinds']]
+        matters = any(direct(i, dflt) != want[i] for i in idx[:6])
+    out['theta_matters'] = matters
+    # plain loops (eval_fixed only): an evaluation independent of rsatoolbox's compare / predict
+    out['plain_bad'] = None
+    if ev['fn'] == 'fixed' and not isinstance(own, dict):
+        ths = ev['theta'] if ev['theta'] is not None else [None] * len(ev['kinds'])
+        for i in idx:
+            if i >= len(own):
+                break
+            pl = _plain_eval(ev, vecs, [float(v) for v in sl.dissimilarities[i]], ths)
+            for g, w in zip(own[i], pl):
+                # (a zero-norm vector is a degenerate comparison: skipped)
+                if g is not None and w is not None and not close(g, w, 1e-9, 1e-9):
+                    out['plain_bad'] = [i, own[i], pl]
+                    break
+            if out['plain_bad']:
+                break
+    # identical across n_jobs
+    out['sweep'] = []
+    out['njobs_differ'] = []
+    if sweep:
+        ref = None
+        for n2 in EV_NJOBS_SWEEP:
+            r = own if (n2 == nj and backend == 'threading') else lib(n2, 'threading')
+            out['sweep'].append(n2)
+            if ref is None:
+                ref = r
+            elif r != ref:
+                k = next((i for i in range(min(len(r), len(ref))) if r[i] != ref[i]), -1) \
+                    if not isinstance(r, dict) and not isinstance(ref, dict) else -1
+                out['njobs_differ'].append([n2, k, _nonan(r[k]) if k >= 0 else str(r)[:80],
+                                            _nonan(ref[k]) if k >= 0 else str(ref)[:80]])
+        if not isinstance(own, dict) and not isinstance(ref, dict) and own != ref:
+            out['njobs_differ'].append([nj, -1, 'own run', f'n_jobs={EV_NJOBS_SWEEP[0]} run'])
+    # what the evaluation function really receives
+    try:
+        with joblib.parallel_backend(backend):
+            spy = SL.evaluate_models_searchlight(sl, None, spy_eval, method=method, theta=theta, n_jobs=nj)
+        out['kw'] = [[int(t[0]), t[1], t[2]] for t in spy]
+    except Exception as exc:  # noqa: BLE001
+        out['kw'] = _exc(exc)
+    out['kw_given'] = [method, json.dumps(ev['theta'])]
+    return out
 
 
 def _run_eval(case):
@@ -707,6 +945,7 @@ def _run_eval(case):
             npair = sl.dissimilarities.shape[1]
             models = [ModelFixed('a', mrng.random(npair)), ModelFixed('b', mrng.random(npair))]
             res = SL.evaluate_models_searchlight(sl, models, eval_fixed, method='cosine', n_jobs=nj)
+        real = _run_real_eval(sl, case['ev'], nj, backend, sweep=True) if case.get('ev') else None
     finally:
         if old is None:
             os.environ.pop('PYTHONPATH', None)
@@ -723,7 +962,7 @@ def _run_eval(case):
                   if i >= sl.n_rdm or not np.array_equal(np.array(t[1]), sl.dissimilarities[i], equal_nan=True))
     return {'tokens': [int(t[0]) for t in toks], 'vec_mismatch': vec_bad, 'eval_mismatch': mism,
             'vecs': [[float(x) for x in t[1]] for t in toks],
-            'completion_in_order': order == sorted(order)}
+            'completion_in_order': order == sorted(order), 'real': real}
 
 
 def _run_pipeline(case):
@@ -737,14 +976,19 @@ def _run_pipeline(case):
     centers, nbs = SL.get_volume_searchlight(mask, radius=float(unrat(case['radius'])),
                                              threshold=float(unrat(case['threshold'])))
     if len(centers) == 0:
-        return {'results': [], 'centers': []}
+        return {'results': [], 'centers': [], 'real': None}
     sl = SL.get_searchlight_RDMs(_data_form(case.get('data_kind', 'float'), data), centers, nbs,
                                  np.array(events), method='euclidean')
     with joblib.parallel_backend('threading'):
         toks = SL.evaluate_models_searchlight(sl, None, token_eval, method='corr', theta=None,
                                               n_jobs=case['n_jobs'])
+    real = None
+    if case.get('ev'):
+        k = int(sl.n_rdm)
+        idx = None if k <= 60 else sorted(set(list(range(0, k, 37)) + [k - 1]))
+        real = _run_real_eval(sl, case['ev'], case['n_jobs'], 'threading', sweep=k <= 60, idx=idx)
     return {'results': [[int(t[0]), [float(x) for x in t[1]]] for t in toks],
-            'centers': [int(c) for c in np.asarray(centers).ravel()]}
+            'centers': [int(c) for c in np.asarray(centers).ravel()], 'real': real}
 
 
 def _pipeline_data(case):
@@ -844,7 +1088,7 @@ def model_requests(case):
             sched = case['sched']
         return [{'op': 'c19.collect', 'tokens': centers, 'sched': sched},
                 {'op': 'c19.eval', 'data': data, 'centers': centers, 'neighbors': nbs, 'events': events,
-                 'sched': sched}]
+                 'sched': sched}] + _kw_request(case)
     if op == 'points':
         impl = run_impl(case) if _key(case) not in _POINTS_IMPL else _POINTS_IMPL[_key(case)]
         reqs = []
@@ -854,8 +1098,34 @@ def model_requests(case):
         return reqs
     if op == 'pipeline':
         return [{'op': 'c19.pipeline', 'shape': case['shape'], 'mask': _flags(case), 'radius': case['radius'],
-                 'threshold': case['threshold'], 'data': _pipeline_data(case), 'events': case['events']}]
+                 'threshold': case['threshold'], 'data': _pipeline_data(case), 'events': case['events']}] \
+            + _kw_request(case)
     raise ValueError(op)
+
+
+def _kw_request(case):
+    """round 6: what the evaluation function receives at every call site of the source (model side)"""
+    import json
+    if not case.get('ev'):
+        return []
+    from engines.C19_tasks import DEFAULT
+    return [{'op': 'c19.evalkw', 'method': case['ev']['method'], 'theta': json.dumps(case['ev']['theta']),
+             'default_method': DEFAULT, 'default_theta': DEFAULT}]
+
+
+def _kw_model(case, ans, centers):
+    """the keywords the model says every centre's call receives; the model's dispatch of tasks to call
+    sites is arbitrary, so call sites that forward different things are a model error (they contradict
+    `eval_forwarding_leaf`)"""
+    if isinstance(ans, dict) and 'model_error' in ans:
+        return ans
+    rec = ans['received']
+    if ans['n_sites'] < 1 or not rec:
+        return {'model_error': 'the model found no call site of eval_function (contradicts eval_forwarding_leaf)'}
+    if any(r != rec[0] for r in rec):
+        return {'model_error': f'call sites of eval_function forward different keywords: {rec} '
+                               '(contradicts eval_forwarding_leaf)'}
+    return [[int(c), rec[0][0], rec[0][1]] for c in centers]
 
 
 def model_result(case, answers):
@@ -893,8 +1163,14 @@ def model_result(case, answers):
                                    '(contradicts eval_per_center_any_schedule)'}
         if [x[0] for x in slots] != a:
             return {'model_error': 'c19.eval and c19.collect disagree'}
-        return {'tokens': [x[0] for x in slots], 'vec_mismatch': 0, 'eval_mismatch': 0,
-                'vecs': [[float(unrat(v)) for v in x[1]] for x in slots]}
+        res = {'tokens': [x[0] for x in slots], 'vec_mismatch': 0, 'eval_mismatch': 0,
+               'vecs': [[float(unrat(v)) for v in x[1]] for x in slots]}
+        if case.get('ev'):
+            kw = _kw_model(case, answers[2], res['tokens'])
+            if isinstance(kw, dict):
+                return kw
+            res['kw'] = kw
+        return res
     if op == 'points':
         for x in answers:
             if isinstance(x, dict) and 'model_error' in x:
@@ -903,7 +1179,13 @@ def model_result(case, answers):
                 'n_chunks': [x['n_chunks'] for x in answers], 'partition': [x['partition'] for x in answers],
                 'lens': [x['lens'] for x in answers], 'chunked': [x['chunked'] for x in answers]}
     if op == 'pipeline':
-        return {'results': [[x[0], [float(unrat(v)) for v in x[1]]] for x in a]}
+        res = {'results': [[x[0], [float(unrat(v)) for v in x[1]]] for x in a]}
+        if case.get('ev') and a:
+            kw = _kw_model(case, answers[1], [x[0] for x in a])
+            if isinstance(kw, dict):
+                return kw
+            res['kw'] = kw
+        return res
     raise ValueError(op)
 
 
@@ -945,6 +1227,27 @@ def compare(case, impl, model):
             and not (isinstance(model, dict) and 'model_error' in model):
         _RAW_ORDER[_key(case)] = impl == model
     return _compare(case, impl, model)
+
+
+def _real_diff(real, model_kw):
+    """round 6: the real evaluations of an eval / pipeline case"""
+    if not real:
+        return None
+    if real['mismatch']:
+        return f'{real["mismatch"]} centre(s): the evaluation returned differs from the direct call ' \
+               f'eval_function(models, sl_RDM[i], method, theta); first [centre#, got, direct]: {_nonan(real["first"])}'
+    if real['plain_bad']:
+        return f'evaluation differs from the plain-loop corr / cosine: {_nonan(real["plain_bad"])}'
+    if real['njobs_differ']:
+        return f'results differ across n_jobs: [n_jobs, centre#, got, with n_jobs=1] = {real["njobs_differ"][0]}'
+    if model_kw is not None:
+        if isinstance(real['kw'], dict):
+            return f'the spy evaluation raised {real["kw"]}'
+        if real['kw'] != model_kw:
+            k = next((i for i, (a, b) in enumerate(zip(real['kw'], model_kw)) if a != b), -1)
+            return 'keywords received by the evaluation function differ from the model: ' \
+                   f'{real["kw"][k] if k >= 0 else len(real["kw"])} vs {model_kw[k] if k >= 0 else len(model_kw)}'
+    return None
 
 
 def _compare(case, impl, model):
@@ -993,7 +1296,8 @@ def _compare(case, impl, model):
         if impl['eval_mismatch']:
             return f'{impl["eval_mismatch"]} evaluation results differ from the per-centre direct call'
         # end to end: the vector each task received is the model's direct RDM of that centre
-        return _rows_diff(impl['vecs'], model['vecs'], 'task rdm')
+        d = _rows_diff(impl['vecs'], model['vecs'], 'task rdm')
+        return d or _real_diff(impl.get('real'), model.get('kw'))
     if op == 'points':
         for i, n in enumerate(impl['ns']):
             if impl['chunked'][i] != model['chunked'][i]:
@@ -1021,7 +1325,8 @@ def _compare(case, impl, model):
         if [x[0] for x in a] != [x[0] for x in b]:
             return f'pipeline: centres of the results differ: {[x[0] for x in a][:10]} ({len(a)}) vs ' \
                    f'{[x[0] for x in b][:10]} ({len(b)})'
-        return _rows_diff([x[1] for x in a], [x[1] for x in b], 'pipeline rdm')
+        d = _rows_diff([x[1] for x in a], [x[1] for x in b], 'pipeline rdm')
+        return d or _real_diff(impl.get('real'), model.get('kw'))
     raise ValueError(op)
 
 
@@ -1205,7 +1510,7 @@ def oracle(case):
                 return {'what': 'the RDM evaluated for a centre is not the RDM computed directly from its '
                                 'searchlight columns', 'centre_number': i, 'observed': impl['vecs'][i],
                         'expected': want, 'detail': d, 'features': feats}
-        return None
+        return _real_oracle(case, impl.get('real'), feats)
     if op == 'points':
         # property: whatever the number of centres, every centre gets exactly one row, i.e. the
         # chunks the code builds cover 0..n-1 once each, in order
@@ -1245,8 +1550,40 @@ def oracle(case):
                 return {'what': 'a pipeline result is not the RDM computed directly from the data columns of '
                                 'the searchlight of its centre', 'centre': c, 'observed': vec, 'expected': want,
                         'detail': d, 'features': feats}
-        return None
+        return _real_oracle(case, impl.get('real'), feats)
     raise ValueError(op)
+
+
+def _real_oracle(case, real, feats):
+    """round 6: the property on the real evaluations (direct calls made outside the library's loop)"""
+    if not real:
+        return None
+    ev = case['ev']
+    feats = dict(feats, theta_given=ev['theta'] is not None, eval_fn=ev['fn'], eval_method=ev['method'],
+                 model_kinds='+'.join(ev['kinds']))
+    args = {'models': ev['kinds'], 'method': ev['method'], 'theta': ev['theta'], 'eval_function': ev['fn'],
+            'n_jobs': case['n_jobs']}
+    if real['mismatch']:
+        return {'what': 'the evaluation reported for a centre is not eval_function(models, sl_RDM[i], '
+                        'method=method, theta=theta) computed directly', 'call': args,
+                'centres_differing': real['mismatch'], 'centre_number': real['first'][0],
+                'observed': _nonan(real['first'][1]), 'expected': _nonan(real['first'][2]), 'features': feats}
+    if real['plain_bad']:
+        return {'what': 'the evaluation reported for a centre is not the corr / cosine of the model prediction '
+                        '(with the given theta) and the RDM of the centre', 'call': args,
+                'centre_number': real['plain_bad'][0], 'observed': _nonan(real['plain_bad'][1]),
+                'expected': _nonan(real['plain_bad'][2]), 'features': feats}
+    if real['njobs_differ']:
+        d = real['njobs_differ'][0]
+        return {'what': 'the evaluation list depends on the number of parallel jobs', 'call': args,
+                'n_jobs': d[0], 'centre_number': d[1], 'observed': d[2], 'expected': d[3], 'features': feats}
+    want = real['kw_given']
+    if isinstance(real['kw'], dict) or any(t[1:] != want for t in real['kw']):
+        got = real['kw'] if isinstance(real['kw'], dict) else next(t for t in real['kw'] if t[1:] != want)
+        return {'what': 'the evaluation function does not receive the method / theta handed to '
+                        'evaluate_models_searchlight', 'call': args, 'observed': got, 'expected': want,
+                'features': feats}
+    return None
 
 
 # ------------------------------------------------------------------ features / bookkeeping
@@ -1377,6 +1714,7 @@ def features(case, impl):
                 b.append('eval:out_of_order')
         if isinstance(impl, dict) and 'vecs' in impl:
             b.append('eval:end_to_end')
+        _real_features(case, impl, f, b, 'eval')
     elif op == 'points':
         b.append('pts:range')
         if isinstance(impl, dict) and 'minus_one' in impl:
@@ -1396,7 +1734,45 @@ def features(case, impl):
                 b.append('pipe:chunked')
             elif 0 < k < sum(_flags(case)):
                 b.append('pipe:some')
+        _real_features(case, impl, f, b, 'pipe')
     return f
+
+
+def _real_features(case, impl, f, b, pre):
+    """round 6: tags of the real evaluation; a `theta-given` tag counts only when the given theta changes
+    the value of some centre (else a dropped theta could not show) and the run succeeded"""
+    real = impl.get('real') if isinstance(impl, dict) else None
+    ev = case.get('ev')
+    if not real or not ev:
+        return
+    ok = not real['mismatch'] and real['own_exc'] is None
+    f['ev'] = f'{ev["fn"]}/{ev["method"]}/{"theta:" + ev.get("theta_form", "list") if ev["theta"] is not None else "none"}/n_jobs={case["n_jobs"]}'
+    f['ev_models'] = '+'.join(sorted(set(ev['kinds'])))
+    if not ok:
+        return
+    nj = case['n_jobs']
+    if real['theta_matters']:
+        b.append(f'{pre}:theta-given:n_jobs1' if nj == 1 else f'{pre}:theta-given:n_jobsN')
+        if pre == 'eval' and case.get('backend') == 'loky':
+            b.append('eval:theta-given:processes')
+        if pre == 'eval' and len(real['sweep']) >= 3 and not real['njobs_differ']:
+            b.append('eval:njobs-agree')
+    if pre != 'eval':
+        return
+    if ev['theta'] is None:
+        b.append('eval:theta-none')
+    for kind, tag in (('weighted', 'eval:weighted'), ('select', 'eval:select'), ('fixed', 'eval:fixed_models')):
+        if kind in ev['kinds']:
+            b.append(tag)
+    b.append('eval:' + ev['method'])
+    if ev['fn'] == 'flex':
+        b.append('eval:flex')
+    if ev['theta'] is not None and ev.get('theta_form') in ('tuple', 'array'):
+        b.append('eval:theta_' + ev['theta_form'])
+    if nj == -1:
+        b.append('eval:n_jobs_minus1')
+    if isinstance(real['kw'], list) and real['kw'] and all(t[1:] == real['kw_given'] for t in real['kw']):
+        b.append('eval:kw_received')
 
 
 def nontrivial_key(case, impl):
@@ -1428,7 +1804,7 @@ def nontrivial_key(case, impl):
             return None
         return [op, case['shape'], case['mask'], case['radius'], case['threshold'], case['events'],
                 case['method'], case['seed'], case.get('take'), case.get('n_jobs'), case.get('backend'),
-                sorted((case.get('form') or {}).items())]
+                sorted((case.get('form') or {}).items()), repr(case.get('ev'))]
     return None
 
 
